@@ -49,4 +49,33 @@ def depthAfter : Bytes → Int → Option Int
     else if c == 125 then (if depth - 1 == 0 then none else depthAfter rest (depth - 1))
     else depthAfter rest depth
 
+/-- one step of the reference tokenizer over the whole remaining input -/
+inductive Step1
+  | tok (adv : Nat) (t : Token) (bom : Bom)   -- token `t`, `adv` bytes consumed
+  | end_ (bom : Bom)                          -- clean end of input, everything consumed
+  | eof (at_ : Nat) (bom : Bom)               -- `Eof` error reported at offset `at_`
+  deriving Repr
+
+/-- end-of-input reading of a scan of the whole remaining input `d` (what `next_opt_refill` does
+when `fill_buf` reports `Ok(0)`); `none` for the BOM arm's own refill request and for the
+unreachable empty carry. -/
+def interp (d : Bytes) : Bom × Scan → Option Step1
+  | (b, .tok adv t) => some (.tok adv t b)
+  | (b, .refill .none carry _) =>
+    if carry == 0 then some (.end_ b)
+    else
+      match d.drop (d.length - carry) with
+      | [] => none
+      | c :: _ => if c == 35 then some (.end_ b) else some (.eof (d.length - carry) b)
+  | (b, .refill .quote carry _) => some (.eof (d.length - carry) b)
+  | (b, .refill .unquoted carry _) => some (.tok d.length (.unquoted (d.drop (d.length - carry))) b)
+  | (_, .bomFill) => none
+
+/-- **the reference the property names**: the next token of the whole remaining input `d`, scanned
+byte by byte from its start (`pos0` = we are at stream position 0, `bom` = BOM state). -/
+def specStep (pos0 : Bool) (bom : Bom) (d : Bytes) : Option Step1 :=
+  match fbLoop pos0 d .top 0 bom with
+  | (_, .bomFill) => interp d (fbLoop pos0 d .top 0 .notPresent)   -- fewer than three bytes in all: not a BOM
+  | res => interp d res
+
 end Jomini.TextReader.Spec
